@@ -246,7 +246,11 @@ def _ops(pid, rng, nt):
         template = np.zeros(m)
         template[::10] = 1
         labels = (np.arange(m) // 7).astype(np.int32)
-        return {"whitint": lambda d: d.hdc.whit.whitint(labels, template)}
+        template2 = np.zeros(m)  # another sensor: the same number of observations on other days
+        template2[np.maximum(0, 10 * np.arange(nt) - 1)] = 1
+        labels2 = (np.arange(m) // 11).astype(np.int32)
+        return {"whitint": lambda d: d.hdc.whit.whitint(labels, template), "whitint_other_days": lambda d: d.hdc.whit.whitint(labels, template2),
+                "whitint_other_periods": lambda d: d.hdc.whit.whitint(labels2, template)}
     if pid == "C11":
         return {"dekad_labels": lambda d: np.asarray([str(v) for v in np.ravel(d.time.dekad.label if hasattr(d.time.dekad, "label") else d.time.dekad.raw)])}
     raise KeyError(pid)
